@@ -3016,6 +3016,32 @@ func ruleR05_7(p *Program, r *Report) {
 			allowed[f] = true
 		}
 	}
+	// a private function that only Read, step and Reset (transitively) call is part of them
+	var within func(fn *ssa.Function, depth int) bool
+	within = func(fn *ssa.Function, depth int) bool {
+		if allowed[fn] {
+			return true
+		}
+		if depth > 3 || ast.IsExported(fn.Name()) {
+			return false
+		}
+		callers := 0
+		for _, g := range p.Funcs() {
+			if g.Pkg != fn.Pkg || g == fn {
+				continue
+			}
+			for _, c := range allCalls(g) {
+				if c.Common().StaticCallee() == fn {
+					callers++
+					if !within(g, depth+1) {
+						return false
+					}
+					break
+				}
+			}
+		}
+		return callers > 0
+	}
 	for _, fn := range p.Funcs() {
 		lab := newLabeler()
 		for _, b := range fn.Blocks {
@@ -3029,7 +3055,7 @@ func ruleR05_7(p *Program, r *Report) {
 					continue
 				}
 				key := shortFn(fn) + "|" + lab.get("store .readPos")
-				r.Check(allowed[fn], "R05.7", key, p.InstrPos(st), "only Read, step and Reset move the hand-out cursor", "decoded bytes are handed out (readPos advanced) outside Read: the consumer bypasses the final step that gives unread input back to the source")
+				r.Check(within(fn, 0), "R05.7", key, p.InstrPos(st), "only Read, step and Reset move the hand-out cursor", "decoded bytes are handed out (readPos advanced) outside Read: the consumer bypasses the final step that gives unread input back to the source")
 			}
 		}
 	}
@@ -4562,4 +4588,232 @@ func ruleR10_13(p *Program, r *Report) {
 	if n == 0 {
 		r.Undecided(id, "fills", "-", "compressor methods encode into their BitBuf", "no such call found")
 	}
+}
+
+// ---------- R04.12: un-staging of a staged header is decided on the value the staging was decided on ----------
+// ---------- R04.13 / R18.18: the header parser leaves only phases the dispatcher has an arm for ----------
+
+func init() {
+	extend("C04", Rule{ID: "R04.12", Configs: "all", Run: ruleR04_12},
+		"(R04.12) in readHeader the re-slice of the real input after a staged header is guarded by a test of the very value (same SSA value: the phase saved at entry, or a flag computed from it) that guarded the staging; a fresh load of the phase after the parse sees what the parse changed, and the rest of the delivered chunk is dropped.")
+	const t13 = "the header parser (readHeader and every function its receiver is passed to) stores into inflate.phase only constants the block dispatcher has an arm for: the phase compared before the stored-block copier, the phase the Go Huffman loop runs under, and the staging phase of the end-of-input edge. Any other phase would send the dispatcher into the Huffman decoder, whose assembly loop does not test the phase and decodes the next block's header bytes with the previous tables."
+	extend("C04", Rule{ID: "R04.13", Configs: "all", Run: ruleR04_13}, "(R04.13) "+t13)
+	extend("C18", Rule{ID: "R18.18", Configs: "all", Run: ruleR04_13}, "(R18.18) = R04.13.")
+}
+
+func ruleR04_12(p *Program, r *Report) {
+	r.Expect("R04.12", 1)
+	fn := p.Method(flateRel, "inflate", "readHeader")
+	if fn == nil {
+		r.Undecided("R04.12", "anchors", "-", "inflate.readHeader exists", "not found")
+		return
+	}
+	// staging: the copy into the staging buffer, or the call of the helper that contains it
+	var stageAt ssa.Instruction
+	for _, rf := range recvRegion(fn) {
+		for _, c := range allCalls(rf.fn) {
+			call, ok := c.(*ssa.Call)
+			if !ok {
+				continue
+			}
+			if bi, ok := call.Common().Value.(*ssa.Builtin); ok && bi.Name() == "copy" {
+				if sl, ok := call.Common().Args[1].(*ssa.Slice); ok && sl.High != nil && sl.Low == nil {
+					if _, sel := accessPath(sl.X); strings.HasSuffix(sel, ".input") {
+						if rf.fn == fn {
+							stageAt = call
+						} else {
+							for _, c2 := range allCalls(fn) {
+								if c2.Common().StaticCallee() == rf.fn {
+									stageAt = c2
+								}
+							}
+						}
+					}
+				}
+			}
+		}
+	}
+	if stageAt == nil {
+		r.Undecided("R04.12", shortFn(fn)+"|staging", p.Pos(fn.Pos()), "readHeader stages input behind the bytes kept from earlier calls", "not found")
+		return
+	}
+	n := 0
+	for _, b := range fn.Blocks {
+		for _, in := range b.Instrs {
+			st, ok := in.(*ssa.Store)
+			if !ok {
+				continue
+			}
+			if _, sel := accessPath(st.Addr); !strings.HasSuffix(sel, ".input") {
+				continue
+			}
+			sl, ok := st.Val.(*ssa.Slice)
+			if !ok || sl.Low == nil || sl.High != nil {
+				continue
+			}
+			if _, sel := accessPath(sl.X); strings.HasSuffix(sel, ".headerBuffer") {
+				continue
+			}
+			if reach, _, _ := (PathQuery{Start: stageAt, Target: func(x ssa.Instruction) bool { return x == ssa.Instruction(st) }}).Find(fn); !reach {
+				continue
+			}
+			n++
+			same := false
+			for _, f1 := range dominatingFacts(stageAt) {
+				for _, f2 := range dominatingFacts(st) {
+					if f1.Op != f2.Op || f1.X != f2.X {
+						continue
+					}
+					if f1.Y == f2.Y {
+						same = true
+					} else if k1, ok1 := constInt(f1.Y); ok1 {
+						if k2, ok2 := constInt(f2.Y); ok2 && k1 == k2 {
+							same = true
+						}
+					}
+				}
+			}
+			why := ""
+			if !same {
+				why = "the re-slice is not guarded by a test of the same value as the staging (a phase re-read after the parse has already been changed by it)"
+			}
+			r.Check(same, "R04.12", shortFn(fn)+"|un-staging under the staging's condition", p.InstrPos(st), "the real input is re-sliced under the same test, on the same value, that decided the staging", why)
+		}
+	}
+	if n == 0 {
+		r.Undecided("R04.12", shortFn(fn)+"|re-slice", p.Pos(fn.Pos()), "readHeader re-slices the real input after a staged header", "not found")
+	}
+}
+
+func ruleR04_13(p *Program, r *Report) {
+	id := "R04.13"
+	if r.Prop == "C18" {
+		id = "R18.18"
+	}
+	r.Expect(id, 3)
+	fn := p.Method(flateRel, "inflate", "readHeader")
+	lit := p.Method(flateRel, "inflate", "decodeLiteralBlock")
+	loop := p.Func(flateRel, "decodeHuffmanLargeLoop")
+	inf := p.Named(flateRel, "inflate")
+	if fn == nil || lit == nil || loop == nil || inf == nil {
+		r.Undecided(id, "anchors", "-", "readHeader, decodeLiteralBlock, decodeHuffmanLargeLoop and the inflate type exist", "not found")
+		return
+	}
+	isPhaseLoad := func(v ssa.Value) bool {
+		ld, ok := v.(*ssa.UnOp)
+		if !ok || ld.Op != token.MUL {
+			return false
+		}
+		fa, ok := ld.X.(*ssa.FieldAddr)
+		return ok && derefNamed(fa.X.Type()) == inf && derefStruct(fa.X.Type()).Field(fa.Field).Name() == "phase"
+	}
+	allowed := map[int64]string{}
+	// the dispatcher's arm for the stored-block copier
+	for _, g := range p.Funcs() {
+		for _, c := range allCalls(g) {
+			if c.Common().StaticCallee() != lit || g == lit {
+				continue
+			}
+			for _, f := range dominatingFacts(c) {
+				if f.Y == nil || f.Op != token.EQL {
+					continue
+				}
+				if k, ok := constInt(f.Y); ok && isPhaseLoad(f.X) {
+					allowed[k] = "the dispatcher's stored-block arm"
+				}
+			}
+		}
+	}
+	// the phase the Go Huffman loop runs under
+	for _, b := range loop.Blocks {
+		if len(b.Instrs) == 0 {
+			continue
+		}
+		if iff, ok := b.Instrs[len(b.Instrs)-1].(*ssa.If); ok && isLoopHeader(b) {
+			if bo, ok := iff.Cond.(*ssa.BinOp); ok && bo.Op == token.EQL && isPhaseLoad(bo.X) {
+				if k, ok := constInt(bo.Y); ok {
+					allowed[k] = "the guard of the Go Huffman loop"
+				}
+			}
+		}
+	}
+	// the staging phase: the constant stored on the end-of-input edge of readHeader (directly or in its helper)
+	for _, b := range fn.Blocks {
+		for _, s := range b.Succs {
+			br, ok := edgeCond(b, s)
+			if !ok {
+				continue
+			}
+			f, ok := branchFact(br)
+			if !ok || f.Y == nil || f.Op != token.EQL {
+				continue
+			}
+			isEOI := false
+			for _, v := range []ssa.Value{f.X, f.Y} {
+				if g := globalLoad(v); g != nil && g.Name() == "errEndInput" {
+					isEOI = true
+				}
+			}
+			if !isEOI {
+				continue
+			}
+			instrs := append([]ssa.Instruction{}, s.Instrs...)
+			for _, in := range s.Instrs {
+				if c, ok := in.(*ssa.Call); ok {
+					if h := c.Common().StaticCallee(); h != nil && h.Blocks != nil && h.Pkg == fn.Pkg && len(c.Common().Args) > 0 && c.Common().Args[0] == ssa.Value(fn.Params[0]) {
+						for _, hb := range h.Blocks {
+							instrs = append(instrs, hb.Instrs...)
+						}
+					}
+				}
+			}
+			for _, in := range instrs {
+				if st, ok := in.(*ssa.Store); ok {
+					if _, sel := accessPath(st.Addr); sel == ".phase" {
+						if k, ok := constInt(st.Val); ok {
+							allowed[k] = "the staging phase of the end-of-input edge"
+						}
+					}
+				}
+			}
+		}
+	}
+	if len(allowed) < 3 {
+		r.Undecided(id, shortFn(fn)+"|dispatcher arms", p.Pos(fn.Pos()), "the stored-block arm, the Huffman loop guard and the staging phase are found", itoa(len(allowed))+" of 3 found")
+		return
+	}
+	n := 0
+	lab := newLabeler()
+	for _, rf := range recvRegion(fn) {
+		for _, b := range rf.fn.Blocks {
+			for _, in := range b.Instrs {
+				st, ok := in.(*ssa.Store)
+				if !ok {
+					continue
+				}
+				fa, ok := st.Addr.(*ssa.FieldAddr)
+				if !ok || derefNamed(fa.X.Type()) != inf || derefStruct(fa.X.Type()).Field(fa.Field).Name() != "phase" {
+					continue
+				}
+				n++
+				k, isK := constInt(st.Val)
+				_, okK := allowed[k]
+				why := ""
+				if !isK {
+					why = "the header parser stores a computed value into phase"
+				} else if !okK {
+					why = "the header parser stores phase " + itoa(int(k)) + ", for which the dispatcher has no arm of its own: it would run the Huffman decoder, whose assembly loop does not test the phase"
+				}
+				r.Check(why == "", id, shortFn(rf.fn)+"|"+lab.get("phase store"), p.InstrPos(st), "the header parser leaves a phase the dispatcher has an arm for ("+allowed[k]+")", why)
+			}
+		}
+	}
+	if n == 0 {
+		r.Undecided(id, shortFn(fn)+"|phase stores", p.Pos(fn.Pos()), "the header parser stores the next phase", "no store found")
+	}
+}
+
+func init() {
+	extend("C18", Rule{ID: "R18.19", Configs: "asm", Run: ruleR18_19},
+		"(R18.19) in the assembly decode loop a conditional jump to the end-of-input exit that follows a comparison involving the bit counter is taken when the counter is the smaller operand (fewer bits buffered than the code needs), never the other way round.")
 }
